@@ -104,6 +104,9 @@ def main():
         r = core.run_tlc("MCDecoder", cfg, workdir=run.work, workers=4)
         failed = bool(r.error)
         expect(failed == should_fail, "model %s %s" % (cfg, "has a TLC counterexample" if should_fail else "satisfies RefIsLastNonDisposable"))
+    for cfg, should_fail in (("MCFormat-current", False), ("MCFormat-rprp-any", True), ("MCFormat-from-header", True)):
+        r = core.run_tlc("MCFormat", cfg, workdir=run.work, workers=2)
+        expect(bool(r.error) == should_fail, "size model %s %s" % (cfg, "has a TLC counterexample" if should_fail else "satisfies SizeInForce"))
     r = core.run_tlc("MbLoop", "MbLoopPinned", workdir=run.work, workers=2)
     expect(bool(r.error), "model MbLoopPinned (unbounded macroblock loop of the pinned tree) lets the count pass the picture")
     outcome, _, _ = core.run_apalache("DecoderIndTrStore", ["--init=IndInit", "--inv=IndInv", "--length=1"], run.work)
